@@ -19,6 +19,7 @@ type pathCase struct {
 	out, in string // with ABS/ standing for the absolute scratch area
 	extras  bool
 	gof     bool
+	wapi    bool // Go function that writes through the documented OutIP(port).Write()
 }
 
 var c13Prefixes = []string{"", "./", "../", "../../", "ABS/"}
@@ -42,7 +43,7 @@ func c13Grammar() []string {
 }
 
 // oddSegment tells whether a path has a segment other than ".." that ends in ".." followed by "/"
-// (the known finding: "../" is matched as a substring).
+// (the defect fixed in 133a9ef: "../" was matched as a substring).
 func oddSegment(p string) bool {
 	segs := strings.Split(p, "/")
 	for i, s := range segs {
@@ -56,8 +57,8 @@ func oddSegment(p string) bool {
 func c13(args []string) {
 	c := chk.New("C13", "exploration", args)
 	c.Build(false)
-	c.Rule("one-task workflows, one child per case, each in a fresh directory three levels below its scratch root: the output path and the input path are drawn from the grammar prefix {'', ./, ../, ../../, ABS/} x 0-2 directory segments {d, d.x, a-b_c, 0, ..., d.., ..d, __parent__, __fsroot__, x__parent__y, .hid} x file names {f, f.txt, .h, f..g, __parent__, a__fsroot__b, ..x} (thorough: every grammar path as output and as input; quick: a sample) plus random long paths; destination directories of ../ and absolute outputs are pre-created, sub-directories of the working directory are not; half of the cases create additional files (one in a not yet existing sub-directory, one sorting after it); oracle: after exit 0 the unique content written at the output placeholder is found at exactly clean(wd/P) (or P if absolute) and nowhere else below the scratch root, the command could read its input through the input placeholder, every additional file is at the same relative place under the working directory. distinct_nontrivial = distinct (output path, input path, extras, command/Go function) cases that ran to completion")
-	c.Assume("scratch root, working directory and absolute area are on one file system", "known finding: a directory segment ending in '..' is not a valid path for the library ('../' is matched as a substring)")
+	c.Rule("one-task workflows, one child per case, each in a fresh directory three levels below its scratch root: the output path and the input path are drawn from the grammar prefix {'', ./, ../, ../../, ABS/} x 0-2 directory segments {d, d.x, a-b_c, 0, ..., d.., ..d, __parent__, __fsroot__, x__parent__y, .hid} x file names {f, f.txt, .h, f..g, __parent__, a__fsroot__b, ..x} (thorough: every grammar path as output and as input; quick: a sample) plus random long paths; destination directories of ../ and absolute outputs are pre-created, sub-directories of the working directory are not; one case in five is a Go function interpreting the same protocol in-process, a further set are Go functions that write through the documented OutIP(port).Write() API; half of the command cases create additional files (one in a not yet existing sub-directory, one sorting after it); oracle: after exit 0 the unique content written at the output placeholder is found at exactly clean(wd/P) (or P if absolute) and nowhere else below the scratch root, the command could read its input through the input placeholder, every additional file is at the same relative place under the working directory. distinct_nontrivial = distinct (output path, input path, extras, command/Go function) cases that ran to completion")
+	c.Assume("scratch root, working directory and absolute area are on one file system", "paths with a directory segment ending in '..' (fixed defect 133a9ef: '../' was matched as a substring) carry their own signature suffix so that a regression there is told apart from other failures")
 	rng := c.Rand("c13")
 	g := c13Grammar()
 	c.Set("grammar_paths", len(g))
@@ -103,6 +104,15 @@ func c13(args []string) {
 		p := c13Prefixes[rng.Intn(len(c13Prefixes))] + strings.Join(segs, "/")
 		cases = append(cases, pathCase{out: p, in: "in.txt", extras: i%2 == 0, gof: i%6 == 0})
 	}
+	// Go functions using the documented write API: every prefix, nested and special segments
+	for _, p := range c13Prefixes {
+		for di, d := range []string{"", "d/", "d.x/0/", "__parent__/", ".hid/a-b_c/"} {
+			cases = append(cases, pathCase{out: p + d + "w.txt", in: []string{"i.txt", "../i.txt", "ind/i.txt"}[di%3], gof: true, wapi: true})
+		}
+	}
+	for i := 0; i < c.Pick(30, 250); i++ {
+		cases = append(cases, pathCase{out: g[rng.Intn(len(g))], in: g[rng.Intn(len(g))], gof: true, wapi: true})
+	}
 	run.Parallel(len(cases), func(i int) {
 		pc := cases[i]
 		root := c.CaseDir()
@@ -141,12 +151,12 @@ func c13(args []string) {
 			opts["extra"] = strings.Join(extras, ",")
 		}
 		s.Procs = append(s.Procs, &spec.Proc{Name: "src", Kind: spec.KFileSource, Files: []string{in}},
-			&spec.Proc{Name: "P", Kind: kind, Cmd: spec.BuildCmd("P", []spec.PortDecl{{Name: "in"}}, []spec.PortDecl{{Name: "out"}}, nil, nil, opts), Outs: []*spec.Out{{Port: "out", Pattern: out}}})
+			&spec.Proc{Name: "P", Kind: kind, WriteAPI: pc.wapi, Cmd: spec.BuildCmd("P", []spec.PortDecl{{Name: "in"}}, []spec.PortDecl{{Name: "out"}}, nil, nil, opts), Outs: []*spec.Out{{Port: "out", Pattern: out}}})
 		s.Conns = append(s.Conns, &spec.Conn{From: "src.out", To: "P.in"})
 		cs := &run.Case{Root: root, Bin: c.Bin, Spec: s, WdRel: wdRel, Env: map[string]string{"SCIPIPE_BUFSIZE": "4"}}
 		c.Eval(1)
 		res := cs.Run()
-		desc := map[string]interface{}{"output_path": pc.out, "input_path": pc.in, "extras": pc.extras, "gofunc": pc.gof, "spec": s}
+		desc := map[string]interface{}{"output_path": pc.out, "input_path": pc.in, "extras": pc.extras, "gofunc": pc.gof, "write_api": pc.wapi, "spec": s}
 		known := oddSegment(pc.out) || oddSegment(pc.in)
 		sigSfx := ""
 		if known {
@@ -208,7 +218,8 @@ func c13(args []string) {
 			c.Violation("file-not-at-declared-path"+sigSfx, fmt.Sprintf("output path %q, input path %q: %s", pc.out, pc.in, strings.Join(ps, "; ")), desc)
 			return
 		}
-		c.Nontrivial(fmt.Sprintf("%s|%s|%v|%v", pc.out, pc.in, pc.extras, pc.gof))
+		c.Nontrivial(fmt.Sprintf("%s|%s|%v|%v|%v", pc.out, pc.in, pc.extras, pc.gof, pc.wapi))
+		c.Count("cases_go_function_write_api", map[bool]int{true: 1, false: 0}[pc.wapi])
 		c.Count("cases_with_additional_files", map[bool]int{true: 1, false: 0}[pc.extras])
 		if i%80 == 0 {
 			c.Sample(map[string]interface{}{"output_path": pc.out, "input_path": pc.in, "found_at": exp, "additional_files": extras, "gofunc": pc.gof})
